@@ -93,7 +93,7 @@ def stage_args(stage, params, indir):
         gs = params.get('genes')
         a.update(genes=_FIX['genes'] if not gs else [f'g{i}' for i in gs])
     elif stage == 'mapping':
-        a['cfg'] = {'chunk_size': 3, 'n_processors': params['n_processors'], 'bootstrap_iteration': 4, 'bootstrap_factor': 0.8,
+        a['cfg'] = {'chunk_size': params.get('chunk_size', 3), 'n_processors': params['n_processors'], 'bootstrap_iteration': 4, 'bootstrap_factor': 0.8,
                     'n_runners_up': 2, 'min_markers': 2, 'normalization': params.get('normalization', 'raw'), 'rng_seed': 23,
                     'tmp_dir': True, 'cloud_safe': False, 'max_gb': params.get('max_gb', 1.0)}
     return a
@@ -351,10 +351,14 @@ class History(RuleBasedStateMachine):
                 p.mkdir(parents=True, exist_ok=True)
         self.dirty = True
 
-    @rule(stage_a=st.sampled_from(STAGES), stage_b=st.sampled_from(STAGES), pa=st.integers(1, 2), pb=st.integers(1, 2))
-    def concurrent_pair(self, stage_a, stage_b, pa, pb):
+    @rule(stage_a=st.sampled_from(STAGES), stage_b=st.sampled_from(STAGES), pa=st.integers(1, 2), pb=st.integers(1, 2),
+          same_stage=st.booleans(), ca=st.sampled_from([1, 3, 8]), cb=st.sampled_from([1, 3, 8]))
+    def concurrent_pair(self, stage_a, stage_b, pa, pb, same_stage=False, ca=3, cb=3):
+        if same_stage:
+            # two runs of the same stage are the ones most likely to collide on scratch names
+            stage_b = stage_a
         self.step += 1
-        what = ['concurrent_pair', stage_a, pa, stage_b, pb]
+        what = ['concurrent_pair', stage_a, pa, stage_b, pb, ca, cb]
         self.trace.append(what)
         sb, ob = listing(self.scratch), listing(self.out)
         barrier = str(self.root / f'barrier_{self.step}')
@@ -363,16 +367,19 @@ class History(RuleBasedStateMachine):
         env['TMPDIR'] = str(self.systmp)
         env.pop('CELL_TYPE_MAPPER_VERIF_TRACE', None)
         procs = []
-        for tag, stage, p in ((f'ca{self.step}', stage_a, pa), (f'cb{self.step}', stage_b, pb)):
-            a = dict(stage_args(stage, {'n_processors': p}, self.ind), work=str(self.out), tmp=str(self.scratch), tag=tag, barrier=barrier)
-            procs.append((stage, p, subprocess.Popen([sys.executable, '-m', 'pbt.stage_runner', json.dumps(a)], env=env, cwd=str(VERIF_DIR),
+        for tag, stage, p, c in ((f'ca{self.step}', stage_a, pa, ca), (f'cb{self.step}', stage_b, pb, cb)):
+            prm = {'n_processors': p}
+            if stage == 'mapping':
+                prm['chunk_size'] = c      # different chunking = different run length for the two mappings
+            a = dict(stage_args(stage, prm, self.ind), work=str(self.out), tmp=str(self.scratch), tag=tag, barrier=barrier)
+            procs.append((stage, prm, subprocess.Popen([sys.executable, '-m', 'pbt.stage_runner', json.dumps(a)], env=env, cwd=str(VERIF_DIR),
                                                      stdout=subprocess.PIPE, stderr=subprocess.PIPE, text=True)))
         t0 = time.time()
         while len(list(self.root.glob(f'barrier_{self.step}.ready*'))) < 2 and time.time() - t0 < 60:
             time.sleep(0.01)
         pathlib.Path(barrier).write_text('go')
         results = []
-        for stage, p, pr in procs:
+        for stage, prm, pr in procs:
             so, se = pr.communicate(timeout=600)
             dg = None
             for line in so.splitlines()[::-1]:
@@ -381,13 +388,13 @@ class History(RuleBasedStateMachine):
                     break
             if dg is None:
                 self._fail('concurrent_run_failed', {'step': what, 'stage': stage, 'stderr': se[-600:]})
-            results.append((stage, p, dg))
+            results.append((stage, prm, dg))
         for f in self.root.glob(f'barrier_{self.step}*'):
             f.unlink()
-        for stage, p, dg in results:
+        for stage, prm, dg in results:
             if 'error' in dg:
                 self._fail('concurrent_run_failed', {'step': what, 'stage': stage, 'error': dg['error']})
-            want = baseline(stage, {'n_processors': p})
+            want = baseline(stage, prm)
             diff = [k for k in sorted(set(want) | set(dg)) if want.get(k) != dg.get(k)]
             if diff:
                 self._fail('result_depends_on_concurrent_run', {'step': what, 'stage': stage, 'differing': diff[:6]})
@@ -407,6 +414,18 @@ def run_stateful(tier, seed, shard, n_shards, out):
     fixture()
     machine = hypothesis.seed(derive_seed(seed, shard))(History)
     t0 = time.time()
+    # a fixed family of histories first: two concurrent mapping runs of different length sharing scratch and
+    # output directories (the pair most exposed to fixed temporary names), one history per shard
+    combos = [(1, 2, 1, 8), (2, 1, 8, 1), (1, 1, 1, 3), (2, 2, 3, 8)]
+    pa, pb, ca, cb = combos[shard % len(combos)]
+    m = History()
+    try:
+        try:
+            m.concurrent_pair(stage_a='mapping', stage_b='mapping', pa=pa, pb=pb, same_stage=True, ca=ca, cb=cb)
+        except Fail:
+            pass
+    finally:
+        m.teardown()
     try:
         run_state_machine_as_test(machine, settings=settings(
             max_examples=n_hist, stateful_step_count=steps, deadline=None, database=None,
@@ -417,6 +436,8 @@ def run_stateful(tier, seed, shard, n_shards, out):
             raise
         if not FAILS:
             raise
+    if FAILS and False:
+        pass
     out['evaluations'] += STATS['histories']
     out['nontrivial'] += sorted(STATS['nontrivial'])
     for k, v in STATS['classes'].items():
@@ -448,7 +469,8 @@ def check(spec):
                 elif name == 'run_mapping_storing_results_in_query':
                     m.run_mapping_storing_results_in_query(n_processors=step[1])
                 elif name == 'concurrent_pair':
-                    m.concurrent_pair(stage_a=step[1], pa=step[2], stage_b=step[3], pb=step[4])
+                    m.concurrent_pair(stage_a=step[1], pa=step[2], stage_b=step[3], pb=step[4],
+                                      ca=step[5] if len(step) > 5 else 3, cb=step[6] if len(step) > 6 else 3)
             except Fail:
                 f = FAILS[-1]
                 raise Violation(f['clause'], f['detail'])
